@@ -272,25 +272,54 @@ func checkC16(w *World, r *Report) {
 		for _, c := range []struct{ typ, field string }{{"enumeration", "enums"}, {"identityref", "identities"}} {
 			m := w.Method("schema", c.typ, "Validate")
 			fd, _ := w.FuncDecl(m)
-			sParam := paramObj(p, fd, 2)
 			okM := false
-			if len(fd.Body.List) == 2 {
-				if rs, isR := fd.Body.List[0].(*ast.RangeStmt); isR {
-					if f := fieldOfSel(p, rs.X); f != nil && nm(f) == c.field && len(rs.Body.List) == 1 {
-						if is, isIf := rs.Body.List[0].(*ast.IfStmt); isIf {
-							if be, isB := ast.Unparen(is.Cond).(*ast.BinaryExpr); isB && be.Op == token.EQL {
-								sel, isSel := ast.Unparen(be.X).(*ast.SelectorExpr)
-								if isSel && sel.Sel.Name == "Val" && objOfIdent(p, sel.X) == objOfIdent(p, rs.Value) && objOfIdent(p, be.Y) == sParam {
-									if rets := returnsIn(is.Body); len(rets) == 1 && isNilIdent(p, rets[0].Results[0]) {
-										if last, isL := fd.Body.List[1].(*ast.ReturnStmt); isL && !isNilIdent(p, last.Results[0]) {
-											okM = true
-										}
-									}
+			if f := w.SSAFunc(m); f != nil && len(f.Params) == 4 {
+				sym := NewSym(w)
+				sVal := ssa.Value(f.Params[3])
+				// accepted in the middle of the scan exactly when the element's Val equals the value;
+				// rejected (non-nil) when the list is exhausted
+				hit := pcZ
+				nHit, nMiss, bad := 0, 0, false
+				for _, ex := range searchExits(sym, f) {
+					if len(ex.ret.Results) != 1 {
+						continue
+					}
+					isNil := isNilConst(ex.ret.Results[0])
+					switch {
+					case ex.inLoop && isNil:
+						nHit++
+						hit = pcOrF(hit, ex.cond)
+					case !ex.inLoop && !isNil:
+						nMiss++
+					default:
+						bad = true
+					}
+				}
+				if !bad && nHit > 0 && nMiss > 0 {
+					okM = pcCompare(hit, func(a *pcAtom) string {
+						if a.op == token.LSS && a.x != nil && isRangeIndex(a.x) {
+							return "iter"
+						}
+						if a.op == token.EQL && a.x != nil {
+							for _, pair := range [][2]ssa.Value{{a.x, a.y}, {a.y, a.x}} {
+								if pair[1] == sVal && loadedFieldName(pair[0]) == "Val" {
+									return "match"
 								}
 							}
 						}
+						return ""
+					}, func(env map[string]bool) bool { return env["iter"] && env["match"] }) == ""
+				}
+				// the list scanned is the type's own
+				scansOwn := false
+				for _, b := range f.Blocks {
+					for _, in := range b.Instrs {
+						if ia, ok := in.(*ssa.IndexAddr); ok && isRangeIndex(ia.Index) && loadedFieldName(ia.X) == c.field {
+							scansOwn = true
+						}
 					}
 				}
+				okM = okM && scansOwn
 			}
 			r.Check(okM, "R16.5", c.typ+".Validate", fd.Pos(), "nil iff some declared .Val == value", c.typ+" no longer accepts exactly the declared (qualified) names")
 		}
